@@ -11,6 +11,7 @@ caches are below this model (C07/C12/C16 cover them); the harness keeps columns 
 `Field.ClearBit` is in PV/C19/Model.lean.
 -/
 import PV.C18.Model
+import PV.C18.Spec
 namespace PV.C18
 
 structure FView where
@@ -101,5 +102,10 @@ def Field.rows (f : Field) (frm to : Option Civil) : Option (List Nat) :=
     | (some .std, _) => none     -- timeOfView("standard"): "invalid time format on view"
     | (_, some .std) => none
     | _ => some []
+
+/-- The field a history of timestamped sets builds from an empty field. -/
+def build (q : Quantum) (noStd : Bool) (log : List Spec.Ev) : Field :=
+  log.foldl (fun f ev => (f.setBit ev.row ev.col ev.ts).1) { q := q, noStd := noStd, views := [] }
+
 
 end PV.C18
